@@ -86,6 +86,11 @@ pub struct IterCase {
     /// vsched::Config::hold: (thread, k-th pointer-valued load, steps to stay away)
     #[serde(default)]
     pub hold: Option<(u8, u8, u16)>,
+    /// the application registered an action of its own on every watched signal and removed it
+    /// again before the instance existed; once the instance is up it calls unregister with those
+    /// old ids a second time (documented as a no-op)
+    #[serde(default)]
+    pub stale_unregister: bool,
 }
 
 pub fn strategy(with_close: bool) -> BoxedStrategy<IterCase> {
@@ -132,9 +137,10 @@ pub fn strategy(with_close: bool) -> BoxedStrategy<IterCase> {
             prop_oneof![2 => Just(1u8), 1 => Just(2u8), 2 => Just(4u8), 1 => Just(8u8)],
             prop::bool::weighted(0.25),
             prop::option::weighted(0.35, (prop_oneof![3 => Just(0u8), 1 => 0u8..4], 1u8..12, prop_oneof![1 => 20u16..80, 1 => 80u16..400])),
+            prop::bool::weighted(0.2),
         ),
     )
-        .prop_map(|(exf, consumer, polls, mut init, mut others, nested, schedule, late, failed_ctor, handoff, (stretch, plain_first, hold))| {
+        .prop_map(|(exf, consumer, polls, mut init, mut others, nested, schedule, late, failed_ctor, handoff, (stretch, plain_first, hold, stale_unregister))| {
             // one case in eight: two threads add the same, not yet watched signal at the same time
             // (derived from values already drawn, so that shrinking stays monotone)
             if schedule.len() % 8 == 3 {
@@ -166,7 +172,7 @@ pub fn strategy(with_close: bool) -> BoxedStrategy<IterCase> {
             }
             let n = others.len() + 1;
             let nested = nested.into_iter().map(|(t, at, sig, on)| INested { thread: t % n, at, sig, on }).collect();
-            IterCase { exf, consumer, polls, init, others, nested, schedule, late, failed_ctor, handoff, stretch, plain_first, hold }
+            IterCase { exf, consumer, polls, init, others, nested, schedule, late, failed_ctor, handoff, stretch, plain_first, hold, stale_unregister }
         })
         .boxed()
 }
@@ -263,14 +269,21 @@ impl Handoff {
     /// true if the batch was handed over (the caller must not drain it)
     fn maybe_give<I>(&mut self, p: I) -> Option<I>
     where
-        I: Iterator + Send + 'static,
+        I: Iterator + Send + std::fmt::Debug + 'static,
         I::Item: Rec,
     {
         self.turn += 1;
         if !self.on || self.given >= MAX_HANDOFF || self.turn % 2 == 0 {
             return Some(p);
         }
+        let fmt_first = self.given % 2 == 1;
         self.queue.lock().unwrap().push_back(Box::new(move || {
+            if fmt_first {
+                // diagnostics are allowed to look at a batch (and through it at the instance's
+                // slots) at any time; they must not disturb a receiver on another thread
+                let text = format!("{:?}", p);
+                vsched::mark("debug-formatted", text.len() as i64, 0);
+            }
             for r in p {
                 yielded(&r, 0);
             }
@@ -307,6 +320,15 @@ where
         }
         vsched::mark("plain-actions-first", 0, 0);
     }
+    let mut old_ids: Vec<signal_hook_registry::SigId> = Vec::new();
+    if case.stale_unregister {
+        for s in SIGS.iter() {
+            if let Ok(id) = unsafe { signal_hook_registry::register(*s, || {}) } {
+                signal_hook_registry::unregister(id);
+                old_ids.push(id);
+            }
+        }
+    }
     if case.failed_ctor != 0 {
         let bad = match case.failed_ctor {
             1 => 0,
@@ -333,6 +355,12 @@ where
             }
             vsched::ret(c, 0);
             handle_out.send(sigs.handle()).unwrap();
+            for id in old_ids.drain(..) {
+                if signal_hook_registry::unregister(id) {
+                    vsched::violate("C05/ret@unregister", "a second unregister of an id whose action had been removed long ago returned true".into());
+                }
+            }
+            vsched::mark("stale-unregister-done", 0, 0);
             let mut ho = Handoff { on: has_second_consumer(case), queue: batch, given: 0, turn: 0 };
             // the very first batch always goes over (scanned at a time of the schedule's choosing)
             if ho.on {
@@ -451,6 +479,12 @@ where
             }
             vsched::ret(c, 0);
             handle_out.send(delivery.handle()).unwrap();
+            for id in old_ids.drain(..) {
+                if signal_hook_registry::unregister(id) {
+                    vsched::violate("C05/ret@unregister", "a second unregister of an id whose action had been removed long ago returned true".into());
+                }
+            }
+            vsched::mark("stale-unregister-done", 0, 0);
             {
                 let mut it = SignalIterator::new(&mut delivery);
                 let mut polls = 0;
@@ -1039,6 +1073,24 @@ pub fn analyse(case: &IterCase, res: &RunResult) -> CaseReport {
                 }
             }
         }
+    }
+    // a delivery of a signal the instance watches (its add had returned before the delivery began)
+    // in which no action of the instance stored anything: the instance's registration is gone
+    // although the instance is alive and open
+    if completed {
+        if let Some(q) = quiescent {
+            let horizon = if user_close { first_close_call.unwrap_or(q).min(q) } else { q };
+            for d in dels.iter().filter(|d| d.target == 1 && d.stored.is_none()) {
+                if let (Some(ar), Some(e)) = (add_ret.get(&d.sig), d.end) {
+                    if *ar < d.start && e < horizon {
+                        rep.viol("C09/action-missing", format!("delivery {} of watched signal {} ran the library's dispatcher but no action of the (open, live) instance: its registration has been removed behind its back", d.id, d.sig));
+                    }
+                }
+            }
+        }
+    }
+    if case.stale_unregister {
+        rep.class("stale-unregister-after-instance-creation");
     }
     // non-trivial C09: a Stored landed while the consumer was inside a call, or the consumer blocked and was woken
     let consumer_blocked = log.iter().any(|r| r.tid == 0 && matches!(r.item, Item::Blocked { what: "fd", .. }));
